@@ -9,7 +9,9 @@
 (* the precedence law on every row.                                         *)
 EXTENDS ArgMap, TLC, Json
 
-VarDefs == << [name |-> "p", def |-> <<>>], [name |-> "q", def |-> <<VInt(3)>>], [name |-> "n", def |-> <<VNull>>] >>   \* $n: Int = null
+VarDefs == << [name |-> "p", def |-> <<>>], [name |-> "q", def |-> <<VInt(3)>>], [name |-> "n", def |-> <<VNull>>],   \* $n: Int = null
+            [name |-> "e", def |-> <<VList(<<>>)>>, t |-> ListOf(Named("Int", FALSE), FALSE)] >>   \* $e: [Int] = []  (the empty list is a value)
+SupplyE == { <<>>, <<[name |-> "e", v |-> VList(<<VInt(5)>>)]>> }
 Supply(name) == { <<>>, <<[name |-> name, v |-> VNull]>>, <<[name |-> name, v |-> VInt(5)]>> }
 
 \* The switch SCHEMA2 (carried in Devs with the deviations; it is a configuration, not a deviation)
@@ -21,13 +23,13 @@ ArgDefault(a) == CASE a = "d" -> <<VInt(IF S2 THEN 8 ELSE 7)>>
                    [] OTHER -> <<>>
 Uses(a) ==
   CASE a \in {"i", "d"} -> { <<>>, <<VInt(1)>>, <<VNull>>, <<VVar("p")>>, <<VVar("q")>>, <<VVar("n")>> }
-    [] a = "l" -> { <<>>, <<VList(<<VInt(1), VVar("p")>>)>>, <<VList(<<VVar("q"), VNull>>)>>, <<VList(<<VVar("n"), VInt(2)>>)>>, <<VList(<<>>)>>, <<VNull>> }
+    [] a = "l" -> { <<>>, <<VList(<<VInt(1), VVar("p")>>)>>, <<VList(<<VVar("q"), VNull>>)>>, <<VList(<<VVar("n"), VInt(2)>>)>>, <<VList(<<>>)>>, <<VNull>>, <<VVar("e")>> }
     [] a = "o" -> { <<>>, <<VMap(<<Ent("x", VVar("p"))>>)>>, <<VMap(<<Ent("x", VVar("n"))>>)>>,
                     <<VMap(<<Ent("x", VInt(1)), Ent("y", VList(<<VVar("q")>>)), Ent("z", VMap(<<Ent("x", VVar("p"))>>))>>)>>,
                     <<VMap(<<>>)>>, <<VNull>> }
     [] a = "a" -> { <<>>, <<VFloat("3.5")>>, <<VStr("s")>>, <<VStr("LATIN1")>>, <<VList(<<VStr("LATIN1"), VStr("s")>>)>>, <<VEnum("ENUMV")>>, <<VBool(TRUE)>>,
                     <<VMap(<<Ent("k", VList(<<VInt(1), VMap(<<Ent("m", VVar("p"))>>)>>))>>)>>, <<VBig>>,
-                    <<VList(<<VBig>>)>> }
+                    <<VList(<<VBig>>)>>, <<VMap(<<Ent("k", VVar("e"))>>)>> }
     [] a = "e" -> { <<>>, <<VEnum("GREEN")>>, <<VEnum("RED")>>, <<VNull>> }
     \* numeric literals at the edge of what the host language can represent: if such a document
     \* passes validation, resolving its arguments must still return normally
@@ -37,21 +39,21 @@ Uses(a) ==
 
 \* "LATIN1" names a string the harness writes with \u00XX escapes (code points 128..255): the
 \* model's strings are ASCII, the value compared is the one the name stands for
-VARIABLES arg, use, sp, sq, sn
-vars == <<arg, use, sp, sq, sn>>
+VARIABLES arg, use, sp, sq, sn, se
+vars == <<arg, use, sp, sq, sn, se>>
 Init == /\ arg \in {"i", "d", "l", "o", "a", "e", "fl", "id", "fls"}
         /\ use \in Uses(arg)
-        /\ sp \in Supply("p") /\ sq \in Supply("q") /\ sn \in Supply("n")
+        /\ sp \in Supply("p") /\ sq \in Supply("q") /\ sn \in Supply("n") /\ se \in SupplyE
 Next == UNCHANGED vars
 Spec == Init /\ [][Next]_vars
 
-CVars == CoercedVars(VarDefs, sp \o sq \o sn)
+CVars == CoercedVars(VarDefs, sp \o sq \o sn \o se)
 Exp == ArgValue(ArgDefault(arg), use, CVars)
 ArgNames == <<"i", "d", "l", "o", "a", "e", "fl", "id", "fls">>
 ExpAll == [j \in 1..Len(ArgNames) |->
              LET a == ArgNames[j]  r == ArgValue(ArgDefault(a), IF a = arg THEN use ELSE <<>>, CVars)
              IN [arg |-> a, present |-> r.present, val |-> r.val]]
-Emit == PrintT(<<"CASE", ToJson([arg |-> arg, use |-> use, supplied |-> sp \o sq \o sn, cvars |-> CVars, exp |-> Exp, all |-> ExpAll])>>)
+Emit == PrintT(<<"CASE", ToJson([arg |-> arg, use |-> use, supplied |-> sp \o sq \o sn \o se, cvars |-> CVars, exp |-> Exp, all |-> ExpAll])>>)
 
 \* precedence: literal > variable > default; explicit null is a value
 Precedence ==
@@ -68,4 +70,7 @@ VarLaw == /\ HasVar(CVars, "q")
           /\ HasVar(CVars, "n")
           /\ (sn = <<>>) => VarVal(CVars, "n").k = "null"
           /\ (sn # <<>>) => VarVal(CVars, "n") = sn[1].v
+          \* a default that is the empty list is a value, not null
+          /\ HasVar(CVars, "e")
+          /\ (se = <<>>) => VarVal(CVars, "e") = VList(<<>>)
 =============================================================================
